@@ -350,6 +350,7 @@ def run_check(pid, mod, tier, seed, t0):
     corr_error = None
     exhaustive = False
     pure_evals = {}
+    rerun_stats = {"rerun": 0, "answers_changed": 0}
 
     def account(items):
         nonlocal evaluations
@@ -390,6 +391,27 @@ def run_check(pid, mod, tier, seed, t0):
                 account(items)
                 mf, sf = evaluate(pid, mod, items, tag)
                 classify(items, mf, sf)
+                if getattr(mod, "RERUN", True):
+                    # every input once more, after all the others have run in this process: an answer that
+                    # differs from the first one means the implementation keeps state across calls (a cache, a
+                    # module-level table); the second answer is then judged like any other
+                    again = []
+                    for inp, out in items:
+                        out2 = mod.run(inp)
+                        if json.dumps(mod.to_json_output(out2), sort_keys=True, default=str) != \
+                           json.dumps(mod.to_json_output(out), sort_keys=True, default=str):
+                            again.append((inp, out2))
+                    rerun_stats["rerun"] += len(items)
+                    rerun_stats["answers_changed"] += len(again)
+                    if again:
+                        account(again)
+                        mf2, sf2 = evaluate(pid, mod, again, tag + "_again")
+                        classify(again, mf2, sf2)
+                        # a changed answer that still satisfies model and spec is impossible unless the
+                        # observation is not a function of the input: report it rather than hide it
+                        quiet = [i for i in range(len(again)) if i not in mf2 and i not in sf2]
+                        if quiet:
+                            notes.append("%d inputs gave a different but acceptable answer when run a second time" % len(quiet))
                 if tag == "gen":
                     step = max(1, len(items) // 4)
                     for inp, out in items[::step][:5]:
@@ -480,6 +502,7 @@ def run_check(pid, mod, tier, seed, t0):
         "known_findings_reproduced": sorted(known_seen),
         "notes": notes,
     }
+    cov["second_run_in_same_process"] = rerun_stats
     if pure_evals:
         cov["pure_helper_interpreter_evaluations"] = pure_evals
     if coqchk_out:
